@@ -15,6 +15,7 @@ import (
 	"hash/fnv"
 	"os"
 	"path/filepath"
+	"runtime/debug"
 	"sort"
 	"strings"
 	"testing"
@@ -44,6 +45,7 @@ func TestMain(m *testing.M) {
 		return
 	}
 	wal.VerifQuietLog()
+	debug.SetGCPercent(400) // every Open allocates ~2 MiB of buffers; collect less often
 	stats.Main(m)
 }
 
@@ -107,10 +109,10 @@ type history struct {
 	labels  map[string]bool
 	scHash  string
 	// caches
-	keys map[string]map[string][]int // snapshot -> replay key -> prefixes with that key (ascending)
-	vkey map[string][]int            // validSnaps key -> prefixes (ascending)
-	segs []int                     // file ids of wal segments at the end, in sequence order
-	truncated bool                 // crash instants cut short because of a known finding
+	keys      map[string]map[string][]int // snapshot -> replay key -> prefixes with that key (ascending)
+	vkey      map[string][]int            // validSnaps key -> prefixes (ascending)
+	segs      []int                       // file ids of wal segments at the end, in sequence order
+	truncated bool                        // crash instants cut short because of a known finding
 }
 
 // firstSyncingSaveWithCut returns the index of the first trace event of the first save op
@@ -314,16 +316,16 @@ func (h *history) unsyncedChunks(cs *crashState) []chunk {
 }
 
 type image struct {
-	cs      *crashState
-	chunks  []chunk
-	mask    []bool // present chunks (nil with cutBytes >= 0)
-	cut     int64  // prefix in write order: this many unsynced bytes are present; -1 = use mask
-	trunc   bool   // the file holding the cut ends at the cut (instead of zeros up to its size)
-	oldName bool   // a rename not yet covered by a directory fsync did not happen
+	cs       *crashState
+	chunks   []chunk
+	mask     []bool // present chunks (nil with cutBytes >= 0)
+	cut      int64  // prefix in write order: this many unsynced bytes are present; -1 = use mask
+	trunc    bool   // the file holding the cut ends at the cut (instead of zeros up to its size)
+	oldName  bool   // a rename not yet covered by a directory fsync did not happen
 	flipFile int
 	flipOff  int64 // -1 none
 	flipBit  uint
-	kind    string
+	kind     string
 }
 
 func (im *image) describe(h *history) string {
@@ -826,17 +828,27 @@ func runHistory(t *rapid.T, ops []opSpec, genLabels map[string]bool) *history {
 	var tr *traced
 	var out *workerOut
 	var err error
+	var states []crashState
 	for attempt := 0; ; attempt++ {
 		os.RemoveAll(sc.Dir)
 		os.RemoveAll(sc.Dir + ".tmp")
 		tr, out, err = runTraced(base, sc)
+		if err == nil {
+			// the trace must be consistent with the append-only reconstruction
+			states, err = statesOf(tr)
+		}
 		if err == nil || !strings.HasPrefix(err.Error(), "HARNESS:") {
 			break
 		}
 		if attempt == 1 {
+			if d := os.Getenv("C05_KEEP_TRACE"); d != "" {
+				tb, _ := os.ReadFile(filepath.Join(base, "trace.txt"))
+				os.WriteFile(d, tb, 0644)
+			}
 			os.RemoveAll(base)
 			harnessDie("%v", strings.TrimPrefix(err.Error(), "HARNESS: "))
 		}
+		recCrash.Count("worker_rerun_after_trace_inconsistency", 1)
 	}
 	defer os.RemoveAll(base)
 	if err != nil {
@@ -866,10 +878,7 @@ func runHistory(t *rapid.T, ops []opSpec, genLabels map[string]bool) *history {
 	if err := locate(h.recs, tr.files); err != nil {
 		t.Fatalf("the segment files do not hold the saved records in save order: %v\n history: %s", err, ob)
 	}
-	h.states, err = statesOf(tr)
-	if err != nil {
-		harnessDie("%v", strings.TrimPrefix(err.Error(), "HARNESS: "))
-	}
+	h.states = states
 	// clean close + reopen inside the history: everything is synced, so exactly everything saved so far
 	for _, rr := range out.Reads {
 		o := ops[rr.Op]
@@ -1324,7 +1333,7 @@ func flipImages(c *evalCtx, draws [][3]int) {
 		case 0, 1:
 			lo, hi, class = fr.start, fr.start+8, "length_field"
 		case 2, 3:
-			lo, hi, class = fr.typOff, fr.typEnd, "record_type"
+			lo, hi, class = fr.typOff-1, fr.typEnd, "record_type" // field tag and value
 		case 4, 5:
 			lo, hi, class = fr.crcOff, fr.crcEnd, "crc"
 		case 6:
@@ -1349,7 +1358,8 @@ func flipImages(c *evalCtx, draws [][3]int) {
 		}
 		off := lo + int64(d[2]>>3)%(hi-lo)
 		bit := uint(d[2] & 7)
-		typeByte := off >= fr.typOff && off < fr.typEnd && class != "zero_word_after_last_record"
+		// known finding: the type field (tag byte and value) of the envelope is outside the checksum
+		typeByte := fr.typOff > 0 && off >= fr.typOff-1 && off < fr.typEnd && class != "zero_word_after_last_record"
 		if typeByte && excludeType {
 			recFlip.Count("excluded_by_known_finding", 1)
 			continue
